@@ -1466,7 +1466,7 @@ class TypeBlocks(ContainerOperand):
 
             if not wrap:
                 shape = (self._shape[0], min(self._shape[1], abs(column_shift)))
-                empty = np.full(shape, fill_value)
+                empty = full_for_fill(None, shape, fill_value)
                 if column_shift > 0:
                     block_head_iter = (empty,)
                 elif column_shift < 0:
